@@ -43,6 +43,7 @@ def main():
         if a.startswith("--tier="):
             tier = a.split("=", 1)[1]
     agent_meta = json.load(open(meta)) if os.path.exists(meta) else {}
+    keep = {k: agent_meta[k] for k in ("remade_on_head", "note", "remade") if k in agent_meta}
     if recheck:
         agent_meta = {"summary": agent_meta.get("summary"), "needs": agent_meta.get("needs_to_manifest"), "files": agent_meta.get("files")}
     wt = "/tmp/seedconfirm_%s" % sid
@@ -107,6 +108,7 @@ def main():
                           "demo_exit_with_change": res.get("demo_exit_changed"), "demo_exit_without_change": res.get("demo_exit_clean"),
                           "confirmed": res.get("confirmed")},
          "checks_run": res["checks"], "detected": res["detected"]}
+    m.update(keep)
     json.dump(m, open(os.path.join(d, "meta.json"), "w"), indent=1)
     print(json.dumps({k: res[k] for k in ("seed", "confirmed", "detected")}), {p: (v["violations"], v["from_proof_obligations"], v["from_bounded_layer"]) for p, v in res["checks"].items()})
     return 0
